@@ -348,6 +348,110 @@ theorem grpSum_restrict (d : Decl) (sel gsel : List Nat) (hm : d.mem.length = d.
     exact posIn_eq_iff gsel hcl.2.2.2.1 _ j hig hj
   rw [this]
 
+
+theorem getD_of_lt (l : List Nat) (k : Nat) (h : k < l.length) : l.getD k 0 = l[k] := by
+  simp [List.getD_eq_getElem?_getD, List.getElem?_eq_getElem h]
+
+theorem map_getD_range (l : List Nat) : (List.range l.length).map (fun k => l.getD k 0) = l := by
+  apply List.ext_getElem
+  · simp
+  · intro i h1 h2
+    simp [List.getD_eq_getElem?_getD, List.getElem?_eq_getElem h2]
+
+theorem getD_map_nat {α : Type} (f : Nat → α) (dflt : α) (l : List Nat) (k : Nat) (h : k < l.length) :
+    (l.map f).getD k dflt = f (l.getD k 0) := by
+  simp [List.getD_eq_getElem?_getD, List.getElem?_map, List.getElem?_eq_getElem h]
+
+/-- summing over the positions of an index list = summing over its elements -/
+theorem positions_to_elements (l : List Nat) (P : Nat → Bool) (f : Nat → Int) (Q : Nat → Bool) (f' : Nat → Int)
+    (hQ : ∀ k, k < l.length → Q k = P (l.getD k 0)) (hf : ∀ k, k < l.length → f' k = f (l.getD k 0)) :
+    ((List.range l.length).filter Q).map f' = (l.filter P).map f := by
+  have h1 : (List.range l.length).filter Q = (List.range l.length).filter (P ∘ fun k => l.getD k 0) := by
+    apply List.filter_congr
+    intro k hk
+    exact hQ k (List.mem_range.1 hk)
+  have h2 : ((List.range l.length).filter Q).map f' = ((List.range l.length).filter Q).map (f ∘ fun k => l.getD k 0) := by
+    apply List.map_congr_left
+    intro k hk
+    exact hf k (List.mem_range.1 (List.mem_filter.1 hk).1)
+  rw [h2, h1, ← List.map_map, ← List.filter_map, map_getD_range]
+
+
+/-- the role holders of a kept group, read off the selection, are those read off the whole
+    population, up to order -/
+theorem closed_filter_perm_role (d : Decl) (sel gsel : List Nat) (hcl : Closed d sel gsel) (g : Nat) (hg : g ∈ gsel)
+    (r : Nat) :
+    (sel.filter (fun i => decide (d.mem.getD i 0 = g ∧ d.roles.getD i 0 = r))).Perm
+      ((List.range d.nP).filter (fun i => decide (d.mem.getD i 0 = g ∧ d.roles.getD i 0 = r))) := by
+  have h := List.Perm.filter (fun i => decide (d.roles.getD i 0 = r)) (closed_filter_perm d sel gsel hcl g hg)
+  rw [List.filter_filter, List.filter_filter] at h
+  have e : (fun i => decide (d.roles.getD i 0 = r) && decide (d.mem.getD i 0 = g))
+      = (fun i => decide (d.mem.getD i 0 = g ∧ d.roles.getD i 0 = r)) := by
+    funext i; rw [Bool.and_comm, Bool.decide_and]
+  rw [e] at h
+  exact h
+
+/-- the role-filtered sum of a kept group, computed in the part alone, is the one computed in the
+    whole population -/
+theorem roleSum_restrict (d : Decl) (sel gsel : List Nat) (hm : d.mem.length = d.nP) (hcl : Closed d sel gsel)
+    (r : Nat) (x : Val) (j : Nat) (hj : j < gsel.length) :
+    roleSum (restrict d sel gsel) r (reindex sel x) j = roleSum d r x (gsel.getD j 0) := by
+  have hgj : gsel.getD j 0 ∈ gsel := by
+    simp [List.getD_eq_getElem?_getD, List.getElem?_eq_getElem hj]
+  unfold roleSum
+  have hlen : (restrict d sel gsel).mem.length = sel.length := by simp [restrict]
+  rw [hlen, hm]
+  have hpos := positions_to_elements sel
+    (fun i => decide (d.mem.getD i 0 = gsel.getD j 0 ∧ d.roles.getD i 0 = r)) (fun i => x.getD i 0)
+    (fun k => decide ((restrict d sel gsel).mem.getD k 0 = j ∧ (restrict d sel gsel).roles.getD k 0 = r))
+    (fun k => (reindex sel x).getD k 0) ?_ ?_
+  · rw [hpos]
+    have hp := List.Perm.map (fun i => x.getD i 0) (closed_filter_perm_role d sel gsel hcl _ hgj r)
+    apply List.Perm.foldl_eq' hp
+    intro a _ b _ z
+    omega
+  · intro k hk
+    have hmem : sel.getD k 0 ∈ sel := by rw [getD_of_lt sel k hk]; exact List.getElem_mem hk
+    have hig : d.mem.getD (sel.getD k 0) 0 ∈ gsel := (hcl.2.2.2.2 _ (hcl.1 _ hmem)).1 hmem
+    have e1 : (restrict d sel gsel).mem.getD k 0 = posIn gsel (d.mem.getD (sel.getD k 0) 0) := by
+      simp only [restrict]; exact getD_map_nat _ 0 sel k hk
+    have e2 : (restrict d sel gsel).roles.getD k 0 = d.roles.getD (sel.getD k 0) 0 := by
+      simp only [restrict]; exact getD_map_nat _ 0 sel k hk
+    rw [e1, e2, decide_eq_decide, posIn_eq_iff gsel hcl.2.2.2.1 _ j hig hj]
+  · intro k hk
+    unfold reindex
+    exact getD_map_nat _ 0 sel k hk
+
+/-- a group with exactly one holder of role `r`: the role-filtered sum is that holder's value -/
+theorem roleSum_unique (d : Decl) (r : Nat) (x : Val) (g i : Nat) (hi : i < d.mem.length)
+    (hh : d.mem.getD i 0 = g ∧ d.roles.getD i 0 = r)
+    (hu : ∀ k, k < d.mem.length → d.mem.getD k 0 = g ∧ d.roles.getD k 0 = r → k = i) :
+    roleSum d r x g = x.getD i 0 := by
+  unfold roleSum
+  have : (List.range d.mem.length).filter (fun k => decide (d.mem.getD k 0 = g ∧ d.roles.getD k 0 = r)) = [i] := by
+    rw [← List.perm_singleton]
+    rw [List.perm_ext_iff_of_nodup (List.nodup_range.sublist List.filter_sublist) (by simp)]
+    intro k
+    simp only [List.mem_filter, List.mem_range, decide_eq_true_eq, List.mem_singleton]
+    constructor
+    · rintro ⟨h1, h2⟩; exact hu k h1 h2
+    · rintro rfl; exact ⟨hi, hh⟩
+  rw [this]
+  simp
+
+/-- a group without holder of role `r`: 0 (the default of `value_from_person`) -/
+theorem roleSum_none (d : Decl) (r : Nat) (x : Val) (g : Nat)
+    (hn : ∀ k, k < d.mem.length → ¬(d.mem.getD k 0 = g ∧ d.roles.getD k 0 = r)) :
+    roleSum d r x g = 0 := by
+  unfold roleSum
+  have : (List.range d.mem.length).filter (fun k => decide (d.mem.getD k 0 = g ∧ d.roles.getD k 0 = r)) = [] := by
+    rw [List.filter_eq_nil_iff]
+    intro k hk
+    simp only [decide_eq_true_eq]
+    exact hn k (List.mem_range.1 hk)
+  rw [this]
+  rfl
+
 /-- projection of a group vector onto the kept persons -/
 theorem project_restrict (d : Decl) (sel gsel : List Nat) (hm : d.mem.length = d.nP) (hcl : Closed d sel gsel) (x : Val) :
     (sel.map (fun i => posIn gsel (d.mem.getD i 0))).map (fun g => (reindex gsel x).getD g 0)
@@ -423,14 +527,21 @@ theorem f2_shape (o : Nat) :
   · exact Or.inl ⟨fun c b => if c ≠ 0 then 0 else b, fun x y => by simp [f2, h8]⟩
   exact Or.inr (fun x y => by simp [f2, h0, h1, h2, h3, h4, h5, h6, h7, h8])
 
-theorem f1_shape (o : Nat) (h1 : o ≠ 1) (h2 : o ≠ 2) : ∃ g : Int → Int, ∀ (d : Decl) (x : Val), f1 d o x = x.map g := by
+theorem not_roleOp {o : Nat} (hr : isRoleOp o = false) :
+    ¬(10 ≤ o ∧ o < 20) ∧ ¬(20 ≤ o ∧ o < 30) ∧ ¬(30 ≤ o ∧ o < 40) ∧ ¬(40 ≤ o ∧ o < 50) := by
+  have : ¬(10 ≤ o ∧ o < 50) := by simpa [isRoleOp] using hr
+  omega
+
+theorem f1_shape (o : Nat) (h1 : o ≠ 1) (h2 : o ≠ 2) (hr : isRoleOp o = false) :
+    ∃ g : Int → Int, ∀ (d : Decl) (x : Val), f1 d o x = x.map g := by
+  obtain ⟨r1, r2, r3, r4⟩ := not_roleOp hr
   by_cases h0 : o = 0
   · exact ⟨fun a => -a, fun d x => by simp [f1, h0]⟩
   by_cases h3 : o = 3
   · exact ⟨fun a => if a ≠ 0 then 1 else 0, fun d x => by simp [f1, h3]⟩
   by_cases h100 : 100 ≤ o
-  · exact ⟨fun a => a * ((o : Int) - 150), fun d x => by simp [f1, h0, h1, h2, h3, h100]⟩
-  exact ⟨id, fun d x => by simp [f1, h0, h1, h2, h3, h100]⟩
+  · exact ⟨fun a => a * ((o : Int) - 150), fun d x => by simp only [f1, h0, h1, h2, h3, r1, r2, r3, r4, h100, if_true, if_false]⟩
+  exact ⟨id, fun d x => by simp only [f1, h0, h1, h2, h3, r1, r2, r3, r4, h100, if_false, List.map_id]⟩
 
 theorem castTo_shape (t : VType) : ∃ g : Int → Int, ∀ x : Val, castTo t x = x.map g := by
   cases t
@@ -462,11 +573,80 @@ theorem f2_sim {d : Decl} {sel gsel : List Nat} (hcl : Closed d sel gsel) (o : N
     · rw [hg x y, hg]; exact ⟨hx, rfl⟩
 
 theorem f1_sim_pointwise {d : Decl} {sel gsel : List Nat} (hcl : Closed d sel gsel) (o : Nat) (h1 : o ≠ 1) (h2 : o ≠ 2)
-    (s : Option Nat) (x : Val) (hx : ID d s x) :
+    (hr : isRoleOp o = false) (s : Option Nat) (x : Val) (hx : ID d s x) :
     ID d s (f1 d o x) ∧ f1 (restrict d sel gsel) o (TD sel gsel s x) = TD sel gsel s (f1 d o x) := by
-  obtain ⟨g, hg⟩ := f1_shape o h1 h2
+  obtain ⟨g, hg⟩ := f1_shape o h1 h2 hr
   rw [hg d, hg (restrict d sel gsel)]
   exact map_sim hcl g s x hx
+
+/-- what a role operation computes for one group -/
+def roleFn (d : Decl) (o : Nat) (x : Val) (g : Nat) : Int :=
+  if o < 20 then roleSum d (o - 10) x g
+  else if o < 30 then roleSum d (o - 20) x g
+  else if o < 40 then roleSum d (o - 30) (List.replicate d.mem.length 1) g
+  else if roleSum d (o - 40) x g > 0 then 1 else 0
+
+theorem f1_role (d : Decl) (o : Nat) (hr : isRoleOp o = true) (x : Val) :
+    f1 d o x = (List.range d.nG).map (roleFn d o x) := by
+  have hb : 10 ≤ o ∧ o < 50 := by simpa [isRoleOp] using hr
+  have h0 : o ≠ 0 := by omega
+  have h1 : o ≠ 1 := by omega
+  have h2 : o ≠ 2 := by omega
+  have h3 : o ≠ 3 := by omega
+  unfold f1
+  simp only [h0, h1, h2, h3, if_false]
+  by_cases a : o < 20
+  · have c1 : 10 ≤ o ∧ o < 20 := ⟨hb.1, a⟩
+    simp only [c1, and_self, if_true]
+    apply List.map_congr_left; intro g _; simp [roleFn, a]
+  · by_cases b : o < 30
+    · have c1 : ¬(10 ≤ o ∧ o < 20) := by omega
+      have c2 : 20 ≤ o ∧ o < 30 := by omega
+      simp only [c1, c2, and_self, if_true, if_false]
+      apply List.map_congr_left; intro g _; simp [roleFn, a, b]
+    · by_cases c : o < 40
+      · have c1 : ¬(10 ≤ o ∧ o < 20) := by omega
+        have c2 : ¬(20 ≤ o ∧ o < 30) := by omega
+        have c3 : 30 ≤ o ∧ o < 40 := by omega
+        simp only [c1, c2, c3, and_self, if_true, if_false]
+        apply List.map_congr_left; intro g _; simp [roleFn, a, b, c]
+      · have c1 : ¬(10 ≤ o ∧ o < 20) := by omega
+        have c2 : ¬(20 ≤ o ∧ o < 30) := by omega
+        have c3 : ¬(30 ≤ o ∧ o < 40) := by omega
+        have c4 : 40 ≤ o ∧ o < 50 := by omega
+        simp only [c1, c2, c3, c4, and_self, if_true, if_false]
+        apply List.map_congr_left; intro g _; simp [roleFn, a, b, c]
+
+theorem roleFn_restrict (d : Decl) (sel gsel : List Nat) (hm : d.mem.length = d.nP) (hcl : Closed d sel gsel)
+    (o : Nat) (x : Val) (j : Nat) (hj : j < gsel.length) :
+    roleFn (restrict d sel gsel) o (reindex sel x) j = roleFn d o x (gsel.getD j 0) := by
+  have hrep : List.replicate (restrict d sel gsel).mem.length (1 : Int) = reindex sel (List.replicate d.mem.length 1) := by
+    rw [reindex_replicate sel d.mem.length 1 (by rw [hm]; exact hcl.1)]
+    simp [restrict]
+  unfold roleFn
+  rw [hrep]
+  simp only [roleSum_restrict d sel gsel hm hcl _ _ j hj]
+
+/-- the role operations (role-filtered sum, value of the unique-role member, number of role
+    holders, any) commute with a closed selection -/
+theorem f1_sim_role {d : Decl} {sel gsel : List Nat} (hm : d.mem.length = d.nP) (hcl : Closed d sel gsel)
+    (o : Nat) (hr : isRoleOp o = true) (ent : Nat) (hent : ent ≠ 0) (x : Val) (hx : ID d (some 0) x) :
+    ID d (some ent) (f1 d o x) ∧
+    f1 (restrict d sel gsel) o (TD sel gsel (some 0) x) = TD sel gsel (some ent) (f1 d o x) := by
+  simp only [ID, TD, idxFor, Decl.size, if_neg hent, if_true] at hx ⊢
+  rw [f1_role d o hr, f1_role (restrict d sel gsel) o hr]
+  refine ⟨by simp, ?_⟩
+  apply List.ext_getElem
+  · simp [restrict, reindex]
+  · intro j h1 h2
+    have hj : j < gsel.length := by simpa [reindex] using h2
+    have hgj : gsel[j] < d.nG := hcl.2.1 _ (List.getElem_mem hj)
+    have hget : gsel.getD j 0 = gsel[j] := by simp [List.getD_eq_getElem?_getD, List.getElem?_eq_getElem hj]
+    simp only [restrict, reindex, List.getElem_map, List.getElem_range]
+    have := roleFn_restrict d sel gsel hm hcl o x j hj
+    simp only [restrict, reindex] at this
+    rw [this, hget]
+    simp [List.getD_eq_getElem?_getD, List.getElem?_map, List.getElem?_range hgj]
 
 theorem f1_one (d : Decl) (x : Val) : f1 d 1 x = (List.range d.nG).map (grpSum d.mem x) := by
   simp [f1, grpSum]
@@ -591,18 +771,27 @@ theorem elabExpr_rel (hm : d.mem.length = d.nP) (hcl : Closed d sel gsel) (p : P
     intro ent hwt
     simp only [elabExpr]
     simp only [WT] at hwt
-    by_cases h1 : o = 1
-    · subst h1
-      simp only [if_true, Bool.and_eq_true, bne_iff_ne, ne_eq] at hwt ⊢
-      exact .op1 _ (some 0) 1 _ _ (ih 0 hwt.2) (fun x hx => f1_sim_sum hm hcl ent hwt.1 x hx)
-    · by_cases h2 : o = 2
+    by_cases hS : o = 1 ∨ isRoleOp o = true
+    · rw [if_pos hS] at hwt ⊢
+      simp only [Bool.and_eq_true, bne_iff_ne, ne_eq] at hwt
+      rcases hS with h1 | hr
+      · subst h1
+        exact .op1 _ (some 0) 1 _ _ (ih 0 hwt.2) (fun x hx => f1_sim_sum hm hcl ent hwt.1 x hx)
+      · exact .op1 _ (some 0) o _ _ (ih 0 hwt.2) (fun x hx => f1_sim_role hm hcl o hr ent hwt.1 x hx)
+    · rw [if_neg hS] at hwt ⊢
+      have h1 : o ≠ 1 := fun h => hS (Or.inl h)
+      have hr : isRoleOp o = false := by
+        cases h : isRoleOp o
+        · rfl
+        · exact absurd (Or.inr h) hS
+      by_cases h2 : o = 2
       · subst h2
-        simp only [if_neg h1, if_true, Bool.and_eq_true, beq_iff_eq] at hwt ⊢
+        simp only [if_true, Bool.and_eq_true, beq_iff_eq] at hwt ⊢
         obtain ⟨he, hwa⟩ := hwt
         subst he
         exact .op1 _ (some 1) 2 _ _ (ih 1 hwa) (fun x hx => f1_sim_proj hm hcl 1 (by decide) x hx)
-      · simp only [if_neg h1, if_neg h2] at hwt ⊢
-        exact .op1 _ (some ent) o _ _ (ih ent hwt) (fun x hx => f1_sim_pointwise hcl o h1 h2 _ x hx)
+      · simp only [if_neg h2] at hwt ⊢
+        exact .op1 _ (some ent) o _ _ (ih ent hwt) (fun x hx => f1_sim_pointwise hcl o h1 h2 hr _ x hx)
   | op2 o a b iha ihb =>
     intro ent hwt
     simp only [WT, Bool.and_eq_true] at hwt
